@@ -355,3 +355,24 @@ V('C01-fallback-offsets-no-fencepost', 'C01', IX, "    polygon_offsets = offsets
 V('C01-silent-mirrored-vertex-test', 'C01', IX, "        if x0 <= x <= x1 and y0 <= y <= y1:\n            vert_in_rect = True\n            break\n\n    if vert_in_rect:\n        result[i] = True\n        return\n\n    # Check for segment that crosses rectangle edge\n    segment_intersects = False\n    for j in range(start, stop - 2, 2):", "        if x1 >= x >= x0 and y1 >= y >= y0:\n            vert_in_rect = True\n            break\n\n    if vert_in_rect:\n        result[i] = True\n        return\n\n    # Check for segment that crosses rectangle edge\n    segment_intersects = False\n    for j in range(start, stop - 3, 2):", expect='silent')
 V('C01-silent-three-edges', 'C01', IX, "        # right\n        if segments_intersect(ex0, ey0, ex1, ey1, x1, y0, x1, y1):\n            segment_intersects = True\n            break\n\n    if segment_intersects:\n        result[i] = True\n\n\n@ngjit\ndef lines_intersect_bounds(", "    if segment_intersects:\n        result[i] = True\n\n\n@ngjit\ndef lines_intersect_bounds(", expect='silent')
 V('C01-silent-stricter-vertex-shortcut', 'C01', IX, "        if x0 <= x <= x1 and y0 <= y <= y1:\n            vert_in_rect = True\n            break\n\n    if vert_in_rect:\n        result[i] = True\n        return\n\n    # Check for segment that crosses rectangle edge\n    segment_intersects = False\n    for j in range(start, stop - 2, 2):", "        if x0 < x < x1 and y0 < y < y1:\n            vert_in_rect = True\n            break\n\n    if vert_in_rect:\n        result[i] = True\n        return\n\n    # Check for segment that crosses rectangle edge\n    segment_intersects = False\n    for j in range(start, stop - 2, 2):", expect='silent')
+
+# ------------------------------------------------------------------------------------------------ C02
+V('C02-edge-rule-closed', 'C02', IX, "            if y0 >= y or y1 < y or (x0 < x and x1 < x):", "            if y0 > y or y1 < y or (x0 < x and x1 < x):", rule='C02.c')
+V('C02-edge-rule-open', 'C02', IX, "            if y0 >= y or y1 < y or (x0 < x and x1 < x):", "            if y0 >= y or y1 <= y or (x0 < x and x1 < x):", rule='C02.c')
+V('C02-silent-horizontal-test-redundant', 'C02', IX, "            if y1 == y0:\n                # skip horizontal edges\n                continue\n", "", expect='silent')   # the half-open test already skips horizontal edges
+V('C02-swap-only-y', 'C02', IX, "                y0, y1 = y1, y0\n                x0, x1 = x1, x0\n            else:\n                ascending = 1", "                y0, y1 = y1, y0\n            else:\n                ascending = 1", rule=None, expect='silent')   # x end points are only used symmetrically in the comparison-only part; the cross product (arithmetic) is not decided
+V('C02-y-read-as-x', 'C02', PT, "        x = flat_points[2 * j]\n        y = flat_points[2 * j + 1]\n\n        result[i] = point_intersects_polygon(", "        x = flat_points[2 * j]\n        y = flat_points[2 * j]\n\n        result[i] = point_intersects_polygon(", rule='C02')
+V('C02-write-index-j', 'C02', PT, "        result[i] = point_intersects_polygon(\n            x, y, flat_polygons, offsets\n        )", "        result[j] = point_intersects_polygon(\n            x, y, flat_polygons, offsets\n        )", rule='C02.b')
+V('C02-array-polygon-outer-offsets', 'C02', PT, "            self.flat_values, polygon.buffer_values,  polygon.buffer_inner_offsets, inds\n        )", "            self.flat_values, polygon.buffer_values,  polygon.buffer_outer_offsets, inds\n        )", rule='C02')
+V('C02-array-line-flat-values', 'C02', PT, "            self.flat_values, line.buffer_values,  line.buffer_inner_offsets, inds", "            self.flat_values, line.flat_values,  line.buffer_inner_offsets, inds", rule='C02.a')
+V('C02-multiline-dispatch-missing', 'C02', PT, "        elif isinstance(shape, MultiLine):\n            result = self._intersects_line(shape, inds)\n", "", rule='C02.b')
+V('C02-array-line-no-segment-routine', 'C02', PT, "                intersects_segment = segment_intersects_point(ax0, ay0, ax1, ay1, x, y)\n                if intersects_segment:", "                intersects_segment = (ax1 - ax0) * (y - ay0) - (ay1 - ay0) * (x - ax0) == 0\n                if intersects_segment:", rule='C02.b')
+V('C02-accumulator-reset', 'C02', PT, "                intersects_segment = segment_intersects_point(ax0, ay0, ax1, ay1, x, y)\n                if intersects_segment:\n                    result[i] = True\n                    break", "                result[i] = segment_intersects_point(ax0, ay0, ax1, ay1, x, y)\n                if result[i]:\n                    break", rule='C02.b')
+V('C02-prefilter-strict', 'C02', PT, "            if x < bounds[0] or y < bounds[1] or x > bounds[2] or y > bounds[3]:", "            if x <= bounds[0] or y < bounds[1] or x > bounds[2] or y > bounds[3]:", rule='C02.b')
+V('C02-segment-bbox-open', 'C02', IX, "    if bx < min(ax0, ax1) or bx > max(ax0, ax1):\n        return False", "    if bx <= min(ax0, ax1) or bx > max(ax0, ax1):\n        return False", rule='C02.e')
+V('C02-segment-bbox-axis', 'C02', IX, "    if by < min(ay0, ay1) or by > max(ay0, ay1):\n        return False", "    if by < min(ay0, ay1) or by > max(ax0, ay1):\n        return False", rule='C02')
+V('C02-segment-cross-dimension', 'C02', IX, "    sxp = sx * py - sy * px", "    sxp = sx * px - sy * py", rule='C02.e')
+V('C02-neighbour-vertices-skip', 'C02', PT, "                ax1 = line_xs[m + 1]\n                ay1 = line_ys[m + 1]\n                intersects_segment", "                ax1 = line_xs[m + 1]\n                ay1 = line_ys[m]\n                intersects_segment", rule='C02.a')
+V('C02-reintroduce-D3', ['C02', 'C17'], PT, "        return result & ~missing\n", "        return result\n", rule=None, rules={'C02': 'C02.d', 'C17': 'C17.a'})
+V('C02-default-inds-dropped', 'C02', PT, "    def _intersects_polygon(self, polygon, inds):\n        if inds is None:\n            inds = np.arange(len(self))\n", "    def _intersects_polygon(self, polygon, inds):\n", rule='C02.b')
+V('C02-silent-other-half-open', 'C02', IX, "            if y0 >= y or y1 < y or (x0 < x and x1 < x):", "            if y0 > y or y1 <= y or (x0 < x and x1 < x):", expect='silent')
